@@ -14,7 +14,7 @@ func init() {
 	register(&propDef{
 		id: "C09",
 		li: levelInfo{
-			Level: "other",
+			Level:       "other",
 			Explanation: "Static lifecycle rules. R1: for every component whose Stop/Close blocks on a done latch, the function that closes the latch closes it on every return path. R2: inside the goroutines of listener, session, backend connection, upstream and the two procs every blocking channel operation is guarded (select with a quit latch), a join on a lifecycle latch, or bounded by a timer. R3 (lockset analysis): listener.conns and listener.ln are accessed only under listener.mu, or before the object is shared, or (ln, written once) in code that runs only after the write; the assignment of ln is followed by a re-test of quit/drain that closes the socket. R4: nothing reachable from Drain touches the registry or the quit latch. R5: limit test and insertion are in one critical section and the admission predicate is right over the orderings of len vs limit. R6: Stop closes the listener and every connection of the snapshot taken under the lock, marks the registry stopped in the same critical section, then joins. R7: no lock -> latch wait-for cycle: a goroutine that must finish before a latch closes never acquires, unguarded by a quit test, a lock that is held while waiting for that latch. Wall-clock bounds and goroutine counts are not decided.",
 			TrustedBase: []string{"go/ssa", "VTA call graph", "samlint elock.go, echan.go, zone.go"},
 		},
@@ -385,6 +385,7 @@ func checkListener(c *Ctx, ce *chanEngine) {
 			}
 		})
 		c.Check(closesDrain && closesLn, "R4", "Drain stops accepting", drainFn.Pos(), "closes the drain latch and the listening socket", "Drain does not close both the drain latch and the listening socket")
+		checkDrainLatch(c, "R4")
 	}
 
 	// ---------------- R5
